@@ -19,10 +19,11 @@ logger = logging.getLogger(__name__)
 
 def _remove_unused_optional_outputs(
     node: ir.Node, graph_outputs: frozenset[ir.Value], onnx_opset_version: int
-) -> None:
+) -> bool:
+    """Remove unused optional outputs. Returns True if the node was changed."""
     try:
         if node.domain not in {"", "onnx.ai"}:
-            return
+            return False
         op_schema = onnx.defs.get_schema(node.op_type, onnx_opset_version, domain=node.domain)
     except Exception:  # pylint: disable=broad-exception-caught
         logger.info(
@@ -30,7 +31,7 @@ def _remove_unused_optional_outputs(
             node,
             stack_info=True,
         )
-        return
+        return False
 
     if node.op_type == "BatchNormalization":
         # BatchNormalization op has 3 outputs: Y, running_mean, running_var
@@ -42,27 +43,32 @@ def _remove_unused_optional_outputs(
             return False
 
         if is_used_output(1) or is_used_output(2):
-            return
-        if len(node.outputs) > 1:
-            node.outputs[1].name = ""
-        if len(node.outputs) > 2:
-            node.outputs[2].name = ""
-        node.attributes.pop("training_mode", None)
-        return
+            return False
+        changed = False
+        for i in (1, 2):
+            if len(node.outputs) > i and node.outputs[i].name != "":
+                node.outputs[i].name = ""
+                changed = True
+        if node.attributes.pop("training_mode", None) is not None:
+            changed = True
+        return changed
 
     optional_info = []
     for o in op_schema.outputs:
         # Current ops do not have optional outputs if they have variable number of outputs
         if o.option == onnx.defs.OpSchema.FormalParameterOption.Variadic:
-            return
+            return False
         optional_info.append(o.option == onnx.defs.OpSchema.FormalParameterOption.Optional)
     # If no optional outputs in spec, skip delete operations
     if len([o == 1 for o in optional_info]) == 0:
-        return
+        return False
 
+    changed = False
     for i, out in enumerate(node.outputs):
         if out not in graph_outputs and (not out.uses()) and optional_info[i] is True:
-            out.name = ""
+            if out.name != "":
+                out.name = ""
+                changed = True
 
     # Remove trailing outputs with empty names by counting backwards
     new_output_count = len(node.outputs)
@@ -71,18 +77,24 @@ def _remove_unused_optional_outputs(
             new_output_count -= 1
         else:
             break
+    if new_output_count != len(node.outputs):
+        changed = True
     node.resize_outputs(new_output_count)
+    return changed
 
 
-def _remove_trailing_empty_inputs(node: ir.Node) -> None:
-    # Remove trailing None inputs
+def _remove_trailing_empty_inputs(node: ir.Node) -> bool:
+    """Remove trailing None inputs. Returns True if the node was changed."""
     new_input_count = len(node.inputs)
     for i in reversed(range(len(node.inputs))):
         if node.inputs[i] is None:
             new_input_count -= 1
         else:
             break
+    if new_input_count == len(node.inputs):
+        return False
     node.resize_inputs(new_input_count)
+    return True
 
 
 def _remove_unused_nodes_in_graph_like(function_or_graph: ir.Function | ir.Graph) -> int:
@@ -99,9 +111,11 @@ def _remove_unused_nodes_in_graph_like(function_or_graph: ir.Function | ir.Graph
             function_or_graph.remove(node, safe=True)
             count += 1
         else:
-            _remove_trailing_empty_inputs(node)
+            if _remove_trailing_empty_inputs(node):
+                count += 1
             if onnx_opset_version is not None:
-                _remove_unused_optional_outputs(node, graph_outputs, onnx_opset_version)
+                if _remove_unused_optional_outputs(node, graph_outputs, onnx_opset_version):
+                    count += 1
             for attr in node.attributes.values():
                 if attr.type == ir.AttributeType.GRAPH:
                     count += _remove_unused_nodes_in_graph_like(attr.as_graph())
